@@ -1,7 +1,7 @@
 #!/bin/bash
 # runall.sh [tier] — every claimed check once (VERIF_SEED honoured), evidence + MANIFEST validated against the schemas.
 T=${1:-quick}
-cd /verif
+cd "$(dirname "$(readlink -f "$0")")/.."
 rc_all=0
 for id in $(python3 -c "import json;print(' '.join(c['property_id'] for c in json.load(open('MANIFEST.json'))['checks']))"); do
   s=$(date +%s)
@@ -14,13 +14,13 @@ for id in $(python3 -c "import json;print(' '.join(c['property_id'] for c in jso
 done
 python3-vt - <<'P'
 import json,jsonschema,glob,sys
-m=json.load(open('/verif/MANIFEST.json'))
+m=json.load(open('MANIFEST.json'))
 jsonschema.validate(m,json.load(open('/root/.vp/MANIFEST.schema.json')))
 es=json.load(open('/root/.vp/EVIDENCE.schema.json'))
 bad=0
 for c in m['checks']:
     try:
-        jsonschema.validate(json.load(open(c['evidence_file'])),es)
+        jsonschema.validate(json.load(open('evidence/'+c['evidence_file'].split('/')[-1])),es)
     except Exception as e:
         bad+=1; print("EVIDENCE INVALID",c['property_id'],str(e)[:200])
 print("manifest valid; evidence files invalid:",bad)
